@@ -4,6 +4,8 @@ import (
 	"fmt"
 	"go/token"
 	"go/types"
+	"sort"
+	"strings"
 
 	"golang.org/x/tools/go/ssa"
 )
@@ -94,24 +96,40 @@ type c26Model struct {
 	fns                                                     []*ssa.Function // all functions of the package (closures included)
 	sendFn, resyncFn, finishFn, revalFn                     *ssa.Function
 	selfNorm                                                map[*ssa.Function]int // 0 unknown, 1 yes, 2 no, 3 busy
+	ip                                                      *c26IP
+	senders                                                 map[*ssa.Function][]ssa.Instruction // InSync senders
+	listErrMemo                                             map[ssa.Value]int                   // 1 yes, 2 no, 3 busy
+	normMemo                                                map[*ssa.Function]int
 }
 
 func runC26(c *Ctx) {
 	p := c.Load(c26Pkg)
-	m := &c26Model{c: c, p: p, selfNorm: map[*ssa.Function]int{}}
+	m := &c26Model{c: c, p: p, selfNorm: map[*ssa.Function]int{}, listErrMemo: map[ssa.Value]int{}, normMemo: map[*ssa.Function]int{}}
 	c.Rule("C26.insync", "E-OWN/E-GUARD/E-ORDER", "cache InSync sent only by the resync finisher, which runs only after a completed (or not-found) List, after the synthesized deletions", 4)
 	c.Rule("C26.sweep", "E-PAIR/E-ORDER", "mark-and-sweep: resources→oldResources on List success, revalidation moves entries back, handlers revalidate before storing, sweep deletes what is left of oldResources", 4)
 	c.Rule("C26.nowait", "E-GUARD/E-ORDER", "in the resync function no update can be emitted before the cache has left WaitForDatastore", 3)
 	c.Rule("C26.convreset", "E-PATH (3-state forward dataflow)", "listed items are converted only by a converter that was reset (OnSyncerStarting) since the previous list's items were converted, on every path of the resync function", 1)
 	c.Rule("C26.agg", "E-GUARD/E-FLOW/E-ORDER", "syncer InSync only when all caches are InSync; updates flushed before a status; caches start not in sync", 4)
 	c.Rule("C26.record", "E-PATH/E-ORDER", "every api.SyncStatus received from a watcher cache is stored into cacheStatuses (under the id that came with it) on every path to the return, before the table is read; only 'equals the cache's own entry' may skip the store", 1)
-	m.resolve()
-	m.insyncRules()
-	m.sweepRules()
-	m.nowaitRules()
-	m.aggRules()
-	m.convResetRules()
-	m.recordRules()
+	// Anchors are resolved in two steps (package model, then the roles finisher / resync
+	// function); every family then runs on its own, so an anchor lost by one family (exit 2)
+	// never silences the verdicts of the others.
+	var lost []string
+	c23Guarded(&lost, m.resolve)
+	if m.ip != nil {
+		c23Guarded(&lost, m.resolveRoles)
+		if m.finishFn != nil && m.resyncFn != nil {
+			for _, fam := range []func(){m.insyncRules, m.sweepRules, m.nowaitRules, m.convResetRules} {
+				c23Guarded(&lost, fam)
+			}
+		}
+		for _, fam := range []func(){m.aggRules, m.recordRules} {
+			c23Guarded(&lost, fam)
+		}
+	}
+	if len(lost) > 0 {
+		c.Lost("%s", strings.Join(lost, " | "))
+	}
 }
 
 func (m *c26Model) fld(name string) *types.Var {
@@ -152,25 +170,7 @@ func (m *c26Model) resolve() {
 		}
 	}
 	m.fns = withClosures(tops)
-	one := func(what string, pred func(f *ssa.Function) bool) *ssa.Function {
-		var out []*ssa.Function
-		seen := map[*ssa.Function]bool{}
-		for _, f := range m.fns {
-			if pred(f) && !seen[topFn(f)] {
-				seen[topFn(f)] = true
-				out = append(out, topFn(f))
-			}
-		}
-		if len(out) != 1 {
-			var ns []string
-			for _, f := range out {
-				ns = append(ns, fnName(f))
-			}
-			c.Lost("%s: expected exactly one function, found %v", what, ns)
-		}
-		return out[0]
-	}
-	m.sendFn = one("sender on watcherCache.results", func(f *ssa.Function) bool {
+	m.sendFn = m.one("sender on watcherCache.results", func(f *ssa.Function) bool {
 		found := false
 		allInstrs(f, false, func(_ *ssa.Function, in ssa.Instruction) {
 			if s, ok := in.(*ssa.Send); ok && fieldVar(s.Chan) == m.results {
@@ -179,18 +179,30 @@ func (m *c26Model) resolve() {
 		})
 		return found
 	})
-	m.resyncFn = one("resync function (calls api.Client.List)", func(f *ssa.Function) bool {
-		return len(m.listCalls(f)) > 0
-	})
-	m.revalFn = one("revalidation helper (deletes from oldResources)", func(f *ssa.Function) bool {
-		found := false
-		allInstrs(f, false, func(_ *ssa.Function, in ssa.Instruction) {
-			if cc, ok := isBuiltinCall(in, "delete"); ok && len(cc.Args) == 2 && fieldVar(cc.Args[0]) == m.oldResources {
-				found = true
-			}
-		})
-		return found
-	})
+	m.ip = c26NewIP(m.fns)
+	if len(m.allListCalls()) == 0 {
+		c.Lost("no call of api.Client.List in %s", c26Pkg)
+	}
+}
+
+func (m *c26Model) one(what string, pred func(f *ssa.Function) bool) *ssa.Function {
+	c := m.c
+	var out []*ssa.Function
+	seen := map[*ssa.Function]bool{}
+	for _, f := range m.fns {
+		if pred(f) && !seen[topFn(f)] {
+			seen[topFn(f)] = true
+			out = append(out, topFn(f))
+		}
+	}
+	if len(out) != 1 {
+		var ns []string
+		for _, f := range out {
+			ns = append(ns, fnName(f))
+		}
+		c.Lost("%s: expected exactly one function, found %v", what, ns)
+	}
+	return out[0]
 }
 
 func (m *c26Model) listCalls(f *ssa.Function) []*ssa.Call {
@@ -236,10 +248,11 @@ func (m *c26Model) isConst(v ssa.Value, k *types.Const) bool {
 
 // ---------------------------------------------------------------- insync --
 
-func (m *c26Model) insyncRules() {
-	c, p := m.c, m.p
+func (m *c26Model) resolveRoles() {
+	c := m.c
 	// who sends InSync?
 	senders := map[*ssa.Function][]ssa.Instruction{}
+	m.senders = senders
 	for _, f := range m.fns {
 		allInstrs(f, false, func(_ *ssa.Function, in ssa.Instruction) {
 			if k, st := m.send(in); k == "status" && (st == m.insync || st == nil) {
@@ -250,130 +263,160 @@ func (m *c26Model) insyncRules() {
 	if len(senders) == 0 {
 		c.Lost("nobody sends api.InSync on the results channel")
 	}
-	// the finisher is the InSync sender that the resync function calls
+	// the finisher is the InSync sender that runs under a completed List: a sender with a call
+	// site that is reached only when the List error is nil / NotFound (the guard may sit in a
+	// caller of the function containing the call site, and the error may have been handed to it
+	// as an argument).  Fallback: the InSync sender reachable from a function that Lists.
+	okList := m.listOK(true)
+	var cands []*ssa.Function
 	for f := range senders {
-		for _, ci := range m.callsTo(m.resyncFn, f) {
-			_ = ci
-			m.finishFn = f
+		for _, ci := range m.ip.sites[f] {
+			if m.ip.guarded(ci, okList) {
+				cands = append(cands, f)
+				break
+			}
 		}
 	}
-	if m.finishFn == nil {
-		c.Lost("the resync function %s calls no function that sends InSync", fnName(m.resyncFn))
+	if len(cands) == 0 {
+		for f := range senders {
+			for _, g := range m.fns {
+				if g.Parent() == nil && len(m.listCalls(g)) > 0 && m.ip.reach(g, nil)[f] {
+					cands = append(cands, f)
+					break
+				}
+			}
+		}
 	}
+	if len(cands) != 1 {
+		var ns []string
+		for _, f := range cands {
+			ns = append(ns, fnName(f))
+		}
+		c.Lost("resync finisher (the function that sends InSync, called after a completed List): expected exactly one, found %v", ns)
+	}
+	m.finishFn = cands[0]
+	m.resolveResyncFn()
+}
+
+func (m *c26Model) insyncRules() {
+	c, p := m.c, m.p
+	senders, okList := m.senders, m.listOK(true)
 	var foreign []string
 	for f, ins := range senders {
 		if f != m.finishFn {
 			foreign = append(foreign, fnName(f)+" at "+p.Pos(ins[0].Pos()))
 		}
 	}
+	sort.Strings(foreign)
 	c.Check(len(foreign) == 0, "C26.insync/single-sender", p.Pos(m.finishFn.Pos()),
 		"api.InSync (or a non-constant status) is sent only by "+fnName(m.finishFn),
 		fmt.Sprintf("api.InSync (or a non-constant status) is also sent by %v, outside the resync finisher: in-sync could be reported without a completed list", foreign))
 
-	// finisher called only from the resync function, under List success / not-found
-	lists := m.listCalls(m.resyncFn)
-	isListErr := func(v ssa.Value) bool {
-		for _, o := range origins(v, nil) {
-			if ci, ok := o.V.(*ssa.Call); ok {
-				for _, l := range lists {
-					if l == ci {
-						return true
-					}
-				}
-			}
-		}
-		ex, ok := v.(*ssa.Extract)
-		if !ok || ex.Index != 1 {
-			return false
-		}
-		for _, l := range lists {
-			if ex.Tuple == ssa.Value(l) {
-				return true
-			}
-		}
-		return false
-	}
-	okList := anyOf(
-		c25NilCond(true, isListErr),
-		callCond(true, func(cs CallSite) bool {
-			return cs.Callee != nil && cs.Callee.Name() == "IsNotFound" && len(cs.Args()) == 1 && isListErr(cs.Args()[0])
-		}))
+	// every call of the finisher happens under List success / not-found.  The fact may be
+	// established in the function containing the call, or — when that function is a helper
+	// (only called directly, inside the package) — at every one of its call sites.
 	n := 0
 	for _, f := range m.fns {
 		for _, ci := range m.callsTo(f, m.finishFn) {
 			n++
 			key := fmt.Sprintf("C26.insync/after-list/%s", fnName(topFn(f)))
-			if topFn(f) != m.resyncFn {
-				c.Violate(key, p.Pos(ci.Pos()), "%s is called from %s, outside the resync function: InSync without a list", fnName(m.finishFn), fnName(f))
-				continue
-			}
 			if _, isCall := ci.(*ssa.Call); !isCall {
 				c.Violate(key, p.Pos(ci.Pos()), "%s is deferred/started asynchronously", fnName(m.finishFn))
 				continue
 			}
-			c.Check(guardedCut(ci, okList), key, p.Pos(ci.Pos()),
+			c.Check(m.ip.guarded(ci, okList), key, p.Pos(ci.Pos()),
 				"finisher reached only when List returned no error, or IsNotFound(err)",
-				fnName(m.finishFn)+" is reachable after a List that failed (err != nil and not NotFound): InSync would be reported without a complete list")
+				fnName(m.finishFn)+" is reachable (in "+fnName(f)+", or through one of its callers) without a completed List — no `List error == nil` / IsNotFound(List error) on the way: InSync would be reported without a complete list")
 		}
 	}
 	if n == 0 {
 		c.Lost("%s is never called", fnName(m.finishFn))
 	}
 
-	// inside the finisher: updates (the sweep) strictly before InSync
+	// inside the finisher: updates (the sweep) strictly before InSync.  The sweep may sit in the
+	// finisher itself or in a helper it calls: an "update event" is a direct send of updates or a
+	// call of an in-package function that emits; a call counts as "deletions sent" when, in the
+	// callee, every path to the return sends updates or sees oldResources empty.
 	f := m.finishFn
-	var inSyncSends, updSends []ssa.Instruction
+	isLenOld := func(v ssa.Value) bool {
+		ci, ok := v.(*ssa.Call)
+		if !ok {
+			return false
+		}
+		cc, ok := isBuiltinCall(ci, "len")
+		return ok && len(cc.Args) == 1 && fieldVar(cc.Args[0]) == m.oldResources
+	}
+	empty := func(cond ssa.Value, pol bool) bool {
+		bo, ok := cond.(*ssa.BinOp)
+		if !ok {
+			return false
+		}
+		// through a local: numOld := len(old); numOld > 0
+		zero := func(v ssa.Value) bool { cv, ok := constOf(v); return ok && cv.ExactString() == "0" }
+		if !isLenOld(bo.X) || !zero(bo.Y) {
+			return false
+		}
+		switch bo.Op {
+		case token.GTR, token.NEQ:
+			return !pol
+		case token.EQL, token.LEQ:
+			return pol
+		}
+		return false
+	}
+	isRet := func(in ssa.Instruction) bool { _, ok := in.(*ssa.Return); return ok }
+	sweeps := map[*ssa.Function]int{} // 1 yes, 2 no, 3 busy
+	var isUpd func(in ssa.Instruction) bool
+	isUpd = func(in ssa.Instruction) bool {
+		if k, _ := m.send(in); k != "" {
+			return k == "updates"
+		}
+		ci, ok := in.(*ssa.Call)
+		if !ok {
+			return false
+		}
+		g := calleeFn(ci.Common())
+		if g == nil || g == m.sendFn || !m.ip.inPkg[g] || len(g.Blocks) == 0 {
+			return false
+		}
+		switch sweeps[g] {
+		case 1:
+			return true
+		case 2, 3:
+			return false
+		}
+		sweeps[g] = 3
+		res := m.emits(g, map[*ssa.Function]bool{}) && c25Reach(g, nil, isRet, isUpd, empty) == nil
+		sweeps[g] = 2
+		if res {
+			sweeps[g] = 1
+		}
+		return res
+	}
+	var inSyncSends, updEvents []ssa.Instruction
 	allInstrs(f, false, func(_ *ssa.Function, in ssa.Instruction) {
-		switch k, st := m.send(in); {
-		case k == "status" && st == m.insync:
+		if k, st := m.send(in); k == "status" && st == m.insync {
 			inSyncSends = append(inSyncSends, in)
-		case k == "updates":
-			updSends = append(updSends, in)
+			return
+		} else if k == "updates" {
+			updEvents = append(updEvents, in)
+			return
+		}
+		if ci, ok := in.(*ssa.Call); ok {
+			if g := calleeFn(ci.Common()); g != nil && g != m.sendFn && m.ip.inPkg[g] && m.emits(g, map[*ssa.Function]bool{}) {
+				updEvents = append(updEvents, in)
+			}
 		}
 	})
-	if len(updSends) == 0 {
-		c.Lost("%s sends no updates (the sweep)", fnName(f))
+	if len(updEvents) == 0 {
+		c.Lost("%s sends no updates (the sweep), neither itself nor through a callee", fnName(f))
 	}
 	bad := ""
 	for _, is := range inSyncSends {
-		for _, us := range updSends {
+		for _, us := range updEvents {
 			if instrReaches(is, us) {
 				bad = fmt.Sprintf("updates sent at %s can follow the InSync sent at %s", p.Pos(us.Pos()), p.Pos(is.Pos()))
 			}
-		}
-		isLenOld := func(v ssa.Value) bool {
-			ci, ok := v.(*ssa.Call)
-			if !ok {
-				return false
-			}
-			cc, ok := isBuiltinCall(ci, "len")
-			return ok && len(cc.Args) == 1 && fieldVar(cc.Args[0]) == m.oldResources
-		}
-		empty := func(cond ssa.Value, pol bool) bool {
-			bo, ok := cond.(*ssa.BinOp)
-			if !ok {
-				return false
-			}
-			// through a local: numOld := len(old); numOld > 0
-			zero := func(v ssa.Value) bool { cv, ok := constOf(v); return ok && cv.ExactString() == "0" }
-			if !isLenOld(bo.X) || !zero(bo.Y) {
-				return false
-			}
-			switch bo.Op {
-			case token.GTR, token.NEQ:
-				return !pol
-			case token.EQL, token.LEQ:
-				return pol
-			}
-			return false
-		}
-		isUpd := func(in ssa.Instruction) bool {
-			for _, u := range updSends {
-				if u == in {
-					return true
-				}
-			}
-			return false
 		}
 		if h := c25Reach(f, nil, func(in ssa.Instruction) bool { return in == is }, isUpd, empty); h != nil && bad == "" {
 			bad = fmt.Sprintf("InSync at %s is reachable with a non-empty oldResources without the deletions having been sent", p.Pos(is.Pos()))
@@ -399,64 +442,79 @@ func (m *c26Model) callsTo(f, target *ssa.Function) []ssa.CallInstruction {
 
 func (m *c26Model) sweepRules() {
 	c, p := m.c, m.p
-	// (a) entering the sweep
-	f := m.resyncFn
-	lists := m.listCalls(f)
-	var moveOld, fresh *ssa.Store
-	allInstrs(f, false, func(_ *ssa.Function, in ssa.Instruction) {
-		st, ok := in.(*ssa.Store)
-		if !ok {
-			return
-		}
-		if fieldVar(st.Addr) == m.oldResources && fieldVar(st.Val) == m.resources {
-			moveOld = st
-		}
-		if fieldVar(st.Addr) == m.resources {
-			if _, isMake := st.Val.(*ssa.MakeMap); isMake {
-				fresh = st
+	m.revalFn = m.one("revalidation helper (deletes from oldResources)", func(f *ssa.Function) bool {
+		found := false
+		allInstrs(f, false, func(_ *ssa.Function, in ssa.Instruction) {
+			if cc, ok := isBuiltinCall(in, "delete"); ok && len(cc.Args) == 2 && fieldVar(cc.Args[0]) == m.oldResources {
+				found = true
 			}
-		}
+		})
+		return found
 	})
+	// (a) entering the sweep.  The swap is located by what it does (oldResources = resources;
+	// resources = fresh map) anywhere in the resync function or the helpers it calls; guards and
+	// order are decided across call edges.
+	f := m.resyncFn
+	scope := m.resyncScope()
+	var moveOld, fresh *ssa.Store
+	for _, g := range m.fns {
+		if !scope[g] {
+			continue
+		}
+		allInstrs(g, false, func(_ *ssa.Function, in ssa.Instruction) {
+			st, ok := in.(*ssa.Store)
+			if !ok {
+				return
+			}
+			if fieldVar(st.Addr) == m.oldResources && fieldVar(st.Val) == m.resources {
+				moveOld = st
+			}
+			if fieldVar(st.Addr) == m.resources {
+				if _, isMake := st.Val.(*ssa.MakeMap); isMake {
+					fresh = st
+				}
+			}
+		})
+	}
 	why := ""
 	switch {
 	case moveOld == nil:
-		why = "no `oldResources = resources` in " + fnName(f)
+		why = "no `oldResources = resources` in " + fnName(f) + " or its callees"
 	case fresh == nil:
-		why = "no `resources = make(...)` in " + fnName(f)
-	case !instrDominates(moveOld, fresh):
+		why = "no `resources = make(...)` in " + fnName(f) + " or its callees"
+	case !m.ip.before(moveOld, fresh):
 		why = "resources is replaced before it was saved into oldResources"
 	default:
-		errNil := c25NilCond(true, func(v ssa.Value) bool {
-			ex, ok := v.(*ssa.Extract)
-			if !ok || ex.Index != 1 {
-				return false
-			}
-			for _, l := range lists {
-				if ex.Tuple == ssa.Value(l) {
-					return true
-				}
-			}
-			return false
-		})
-		if !guardedCut(moveOld, errNil) {
+		errNil := m.listOK(false)
+		if !m.ip.guarded(moveOld, errNil) {
 			why = "resources can be moved aside although the List failed (the known resources would be forgotten on a failed resync)"
 		}
 		// every success-path finisher call and every handling of a listed item comes after the swap
-		for _, ci := range m.callsTo(f, m.finishFn) {
-			if guardedCut(ci, errNil) && !instrDominates(fresh, ci) {
-				why = "the finisher at " + p.Pos(ci.Pos()) + " on the List-success path is not preceded by the swap"
+		swap := m.ip.lifted(fresh)
+		for _, g := range m.fns {
+			if !scope[g] {
+				continue
 			}
-		}
-		for _, ci := range f.Blocks {
-			for _, in := range ci.Instrs {
+			allInstrs(g, false, func(_ *ssa.Function, in ssa.Instruction) {
 				call, ok := in.(*ssa.Call)
-				if !ok || calleeFn(call.Common()) == nil || calleeFn(call.Common()) == m.finishFn || calleeFn(call.Common()) == m.sendFn {
-					continue
+				if !ok || swap[in] {
+					return
 				}
-				if m.emits(calleeFn(call.Common()), map[*ssa.Function]bool{}) && guardedCut(call, errNil) && !instrDominates(fresh, call) {
-					why = "listed items are handled at " + p.Pos(call.Pos()) + " before resources was moved into oldResources"
+				h := calleeFn(call.Common())
+				if h == nil || h == m.sendFn || !m.ip.inPkg[h] {
+					return
 				}
-			}
+				if h != m.finishFn && !m.emits(h, map[*ssa.Function]bool{}) {
+					return
+				}
+				if m.ip.guarded(call, errNil) && !m.ip.beforeRec(swap, call, map[*ssa.Function]bool{}, 0) {
+					if h == m.finishFn {
+						why = "the finisher at " + p.Pos(call.Pos()) + " on the List-success path is not preceded by the swap"
+					} else {
+						why = "listed items are handled at " + p.Pos(call.Pos()) + " before resources was moved into oldResources"
+					}
+				}
+			})
 		}
 	}
 	c.Check(why == "", "C26.sweep/enter/"+fnName(f), p.Pos(f.Pos()),
@@ -528,7 +586,10 @@ func (m *c26Model) sweepRules() {
 		g := m.finishFn
 		var appends []ssa.Instruction
 		nonNil := ""
-		for _, h := range withClosures([]*ssa.Function{g}) {
+		for _, h := range m.fns {
+			if !m.ip.reach(g, func(x *ssa.Function) bool { return x == m.sendFn })[h] {
+				continue
+			}
 			allInstrs(h, false, func(_ *ssa.Function, in ssa.Instruction) {
 				if cc, ok := isBuiltinCall(in, "append"); ok && len(cc.Args) > 0 {
 					if sl, ok := cc.Args[0].Type().Underlying().(*types.Slice); ok && qualTypeName(sl.Elem()) == c25APIPkg+".Update" {
@@ -608,30 +669,92 @@ func (m *c26Model) emissionPoints(f *ssa.Function) []ssa.Instruction {
 	return out
 }
 
-// normalised: every path to e — from the entry of f and from every send of
-// WaitForDatastore in f — passes `status == WaitForDatastore` being false or a
-// send of another status.
-func (m *c26Model) normalised(f *ssa.Function, e ssa.Instruction) bool {
-	stop := func(in ssa.Instruction) bool {
-		k, st := m.send(in)
+// leavesWait: the instruction certainly leaves the cache in a status other than
+// WaitForDatastore: a send of another constant status, or a call of an in-package
+// function that does so on every path to its return (mustNormalise).
+func (m *c26Model) leavesWait(in ssa.Instruction) bool {
+	if k, st := m.send(in); k != "" {
 		return k == "status" && st != nil && st != m.wait
 	}
-	cut := eqCond(false, func(v ssa.Value) bool { return fieldVar(v) == m.status }, func(v ssa.Value) bool { return m.isConst(v, m.wait) })
+	if ci, ok := in.(*ssa.Call); ok {
+		if g := calleeFn(ci.Common()); g != nil && g != m.sendFn && m.ip.inPkg[g] {
+			return m.mustNormalise(g)
+		}
+	}
+	return false
+}
+
+// mayEnterWait: the instruction may put the cache (back) into WaitForDatastore: a
+// send of that status (or of a non-constant status), or a call of an in-package
+// function that may do so and is not known to leave it again before returning.
+func (m *c26Model) mayEnterWait(in ssa.Instruction) bool {
+	if k, st := m.send(in); k != "" {
+		return k == "status" && (st == m.wait || st == nil)
+	}
+	if ci, ok := in.(*ssa.Call); ok {
+		if g := calleeFn(ci.Common()); g != nil && g != m.sendFn && m.ip.inPkg[g] && !m.mustNormalise(g) {
+			return m.reachesInstr(g, func(x ssa.Instruction) bool {
+				k, st := m.send(x)
+				return k == "status" && (st == m.wait || st == nil)
+			})
+		}
+	}
+	return false
+}
+
+func (m *c26Model) waitCut() EdgePred {
+	return eqCond(false, func(v ssa.Value) bool { return fieldVar(v) == m.status }, func(v ssa.Value) bool { return m.isConst(v, m.wait) })
+}
+
+// mustNormalise: whatever the status at g's entry, at every return of g the cache
+// has left WaitForDatastore (`if status == WaitForDatastore { send ResyncInProgress }`
+// extracted into a helper, for instance).
+func (m *c26Model) mustNormalise(g *ssa.Function) bool {
+	switch m.normMemo[g] {
+	case 1:
+		return true
+	case 2, 3:
+		return false
+	}
+	m.normMemo[g] = 3
+	isRet := func(in ssa.Instruction) bool { _, ok := in.(*ssa.Return); return ok }
+	res := len(g.Blocks) > 0 && c25Reach(g, nil, isRet, m.leavesWait, m.waitCut()) == nil
+	if res {
+		allInstrs(g, false, func(_ *ssa.Function, in ssa.Instruction) {
+			if res && m.mayEnterWait(in) && c25Reach(g, in, isRet, m.leavesWait, m.waitCut()) != nil {
+				res = false
+			}
+		})
+	}
+	m.normMemo[g] = 2
+	if res {
+		m.normMemo[g] = 1
+	}
+	return res
+}
+
+// normalised: every path to e — from the entry of f and from every point of f that
+// may (re-)enter WaitForDatastore — passes `status == WaitForDatastore` being false
+// or an instruction that leaves WaitForDatastore.
+func (m *c26Model) normalised(f *ssa.Function, e ssa.Instruction) bool {
+	cut := m.waitCut()
 	tgt := func(in ssa.Instruction) bool { return in == e }
-	if c25Reach(f, nil, tgt, stop, cut) != nil {
+	if c25Reach(f, nil, tgt, m.leavesWait, cut) != nil {
 		return false
 	}
 	ok := true
 	allInstrs(f, false, func(_ *ssa.Function, in ssa.Instruction) {
-		if k, st := m.send(in); k == "status" && (st == m.wait || st == nil) {
-			if c25Reach(f, in, tgt, stop, cut) != nil {
-				ok = false
-			}
+		if ok && m.mayEnterWait(in) && c25Reach(f, in, tgt, m.leavesWait, cut) != nil {
+			ok = false
 		}
 	})
 	return ok
 }
 
+// isSelfNorm: f never emits updates while the status is WaitForDatastore, whatever
+// the status at its entry: each of its own emission points (direct sends, calls of
+// emitting callees that are not themselves self-normalising) is normalised inside f.
+// A function that only forwards to self-normalising callees is self-normalising.
 func (m *c26Model) isSelfNorm(f *ssa.Function) bool {
 	switch m.selfNorm[f] {
 	case 1:
@@ -641,11 +764,7 @@ func (m *c26Model) isSelfNorm(f *ssa.Function) bool {
 	}
 	m.selfNorm[f] = 3
 	res := true
-	pts := m.emissionPoints(f)
-	if len(pts) == 0 {
-		res = false
-	}
-	for _, e := range pts {
+	for _, e := range m.emissionPoints(f) {
 		if !m.normalised(f, e) {
 			res = false
 		}
@@ -663,6 +782,28 @@ func (m *c26Model) nowaitRules() {
 	f := m.resyncFn
 	n := 0
 	seen := map[string]bool{}
+	var reportSafe func(callee *ssa.Function)
+	reportSafe = func(callee *ssa.Function) {
+		key := "C26.nowait/" + fnName(callee)
+		if seen[key] {
+			return
+		}
+		seen[key] = true
+		own := m.emissionPoints(callee)
+		if len(own) > 0 || !m.forwardsOnly(callee) {
+			c.Ok(key, p.Pos(callee.Pos()), "%s leaves WaitForDatastore itself before each of its emission points", fnName(callee))
+			return
+		}
+		// a pure forwarder: its emitting callees are each self-normalising
+		c.Ok(key, p.Pos(callee.Pos()), "%s emits only through callees that leave WaitForDatastore themselves", fnName(callee))
+		allInstrs(callee, false, func(_ *ssa.Function, in ssa.Instruction) {
+			if ci, ok := in.(*ssa.Call); ok {
+				if sf := calleeFn(ci.Common()); sf != nil && sf != m.sendFn && sf.Pkg == callee.Pkg && m.emits(sf, map[*ssa.Function]bool{}) && m.isSelfNorm(sf) {
+					reportSafe(sf)
+				}
+			}
+		})
+	}
 	allInstrs(f, false, func(_ *ssa.Function, in ssa.Instruction) {
 		what := ""
 		var callee *ssa.Function
@@ -679,24 +820,39 @@ func (m *c26Model) nowaitRules() {
 		}
 		n++
 		if callee != nil && m.isSelfNorm(callee) {
-			key := "C26.nowait/" + fnName(callee)
-			if !seen[key] {
-				seen[key] = true
-				c.Ok(key, p.Pos(callee.Pos()), "%s leaves WaitForDatastore itself before each of its emission points", fnName(callee))
-			}
+			reportSafe(callee)
 			return
 		}
 		key := "C26.nowait/" + fnName(f) + "/" + what
 		if m.normalised(f, in) {
 			c.Ok(key, p.Pos(in.Pos()), "every path to this emission point (from entry and from each send of WaitForDatastore) leaves WaitForDatastore first")
 		} else {
-			c.Violate(key, p.Pos(in.Pos()), "updates can be emitted through %s at %s while the cache status is WaitForDatastore: neither the callee nor every path in %s first sends ResyncInProgress under status == WaitForDatastore",
-				what, p.Pos(in.Pos()), fnName(f))
+			inner := ""
+			if callee != nil {
+				for _, e := range m.emissionPoints(callee) {
+					if !m.normalised(callee, e) {
+						inner = " (inside " + fnName(callee) + ": emission at " + p.Pos(e.Pos()) + " is not preceded by the transition either)"
+					}
+				}
+			}
+			c.Violate(key, p.Pos(in.Pos()), "updates can be emitted through %s at %s while the cache status is WaitForDatastore: neither the callee nor every path in %s first sends ResyncInProgress under status == WaitForDatastore%s",
+				what, p.Pos(in.Pos()), fnName(f), inner)
 		}
 	})
 	if n == 0 {
 		c.Lost("%s has no emission points", fnName(f))
 	}
+}
+
+// forwardsOnly: f sends no updates / InSync itself.
+func (m *c26Model) forwardsOnly(f *ssa.Function) bool {
+	direct := false
+	allInstrs(f, true, func(_ *ssa.Function, in ssa.Instruction) {
+		if k, st := m.send(in); k == "updates" || (k == "status" && st == m.insync) {
+			direct = true
+		}
+	})
+	return !direct
 }
 
 // ------------------------------------------------------------------- agg --
@@ -934,119 +1090,172 @@ func (m *c26Model) convResetRules() {
 		return cc.IsInvoke() && cc.Method.Name() == name && qualTypeName(cc.Value.Type()) == ifaceName
 	}
 	nilUP := c25NilCond(true, func(v ssa.Value) bool { return fieldVar(v) == up })
-	isRet := func(in ssa.Instruction) bool { _, ok := in.(*ssa.Return); return ok }
 
-	// callee summaries
-	mustReset := map[*ssa.Function]int{} // 1 yes, 2 no, 3 busy
-	var isReset func(in ssa.Instruction) bool
-	var resets func(f *ssa.Function) bool
-	resets = func(f *ssa.Function) bool {
-		if f == nil || f.Blocks == nil || f.Pkg != m.resyncFn.Pkg {
+	// Interprocedural forward dataflow.  flow(g, s) is the transfer function of g for one
+	// entry state s: the set of states at g's returns, whether a conversion inside g (or below)
+	// can happen in state F, and whether g converts at all.  Calls of in-package functions with
+	// a body apply the callee's transfer function at the call, so a reset, a List or a
+	// conversion keeps its meaning wherever an extract-method refactor puts it.
+	const stF, stT, stD = 1, 2, 4
+	pkgOf := m.resyncFn.Pkg
+	relevantMemo := map[*ssa.Function]bool{}
+	relevant := func(g *ssa.Function) bool {
+		if g == nil || g.Blocks == nil || g.Pkg != pkgOf || !m.ip.inPkg[g] {
 			return false
 		}
-		switch mustReset[f] {
-		case 1:
-			return true
-		case 2, 3:
-			return false
+		if r, ok := relevantMemo[g]; ok {
+			return r
 		}
-		mustReset[f] = 3
-		any := false
-		allInstrs(f, false, func(_ *ssa.Function, in ssa.Instruction) {
-			if isReset(in) {
-				any = true
-			}
+		r := m.reachesInstr(g, func(in ssa.Instruction) bool {
+			return invokes(in, "OnSyncerStarting") || invokes(in, "Process") || m.isListCall(in)
 		})
-		res := any && c25Reach(f, nil, isRet, isReset, nilUP) == nil
-		mustReset[f] = 2
-		if res {
-			mustReset[f] = 1
+		relevantMemo[g] = r
+		return r
+	}
+	type fkey struct {
+		g *ssa.Function
+		s uint8
+	}
+	type fres struct {
+		out        uint8
+		bad, convs bool
+		badAt      ssa.Instruction
+	}
+	memo := map[fkey]fres{}
+	busy := map[fkey]bool{}
+	var flow func(g *ssa.Function, s uint8) fres
+	// step applies one instruction to the state set s.
+	step := func(i ssa.Instruction, s uint8) (out uint8, bad, convs bool, badAt ssa.Instruction) {
+		switch {
+		case invokes(i, "OnSyncerStarting"):
+			return stT, false, false, nil
+		case m.isListCall(i):
+			if s&stD != 0 {
+				s = s&^stD | stF
+			}
+			return s, false, false, nil
+		case invokes(i, "Process"):
+			return stD, s&stF != 0, true, i
 		}
+		ci, ok := i.(*ssa.Call)
+		if !ok {
+			return s, false, false, nil
+		}
+		h := calleeFn(ci.Common())
+		if !relevant(h) {
+			return s, false, false, nil
+		}
+		for _, bit := range []uint8{stF, stT, stD} {
+			if s&bit == 0 {
+				continue
+			}
+			r := flow(h, bit)
+			out |= r.out
+			if r.bad {
+				bad = true
+				if badAt == nil {
+					badAt = r.badAt
+				}
+			}
+			convs = convs || r.convs
+		}
+		return out, bad, convs, badAt
+	}
+	flow = func(g *ssa.Function, s0 uint8) fres {
+		k := fkey{g, s0}
+		if r, ok := memo[k]; ok {
+			return r
+		}
+		if busy[k] {
+			return fres{out: s0} // recursion: assume no further effect
+		}
+		busy[k] = true
+		defer delete(busy, k)
+		var res fres
+		in := map[*ssa.BasicBlock]uint8{g.Blocks[0]: s0}
+		work := []*ssa.BasicBlock{g.Blocks[0]}
+		for len(work) > 0 {
+			b := work[len(work)-1]
+			work = work[:len(work)-1]
+			s := in[b]
+			for _, i := range b.Instrs {
+				if s == 0 {
+					break
+				}
+				o, bad, convs, at := step(i, s)
+				if bad {
+					res.bad = true
+					if res.badAt == nil {
+						res.badAt = at
+					}
+				}
+				res.convs = res.convs || convs
+				s = o
+				if _, isRet := i.(*ssa.Return); isRet {
+					res.out |= s
+				}
+			}
+			if s == 0 || isPanicBlock(b) {
+				continue
+			}
+			ifi, isIf := b.Instrs[len(b.Instrs)-1].(*ssa.If)
+			for k, succ := range b.Succs {
+				if isIf && len(b.Succs) == 2 && b.Succs[0] != b.Succs[1] {
+					if cnd, pol := stripNot(ifi.Cond, k == 0); nilUP(cnd, pol) {
+						continue
+					}
+				}
+				if in[succ]|s != in[succ] {
+					in[succ] |= s
+					work = append(work, succ)
+				}
+			}
+		}
+		memo[k] = res
 		return res
-	}
-	isReset = func(in ssa.Instruction) bool {
-		if invokes(in, "OnSyncerStarting") {
-			return true
-		}
-		if ci, ok := in.(*ssa.Call); ok {
-			return resets(calleeFn(ci.Common()))
-		}
-		return false
-	}
-	var converts func(f *ssa.Function, seen map[*ssa.Function]bool) bool
-	converts = func(f *ssa.Function, seen map[*ssa.Function]bool) bool {
-		if f == nil || f.Blocks == nil || seen[f] || f.Pkg != m.resyncFn.Pkg {
-			return false
-		}
-		seen[f] = true
-		found := false
-		allInstrs(f, true, func(_ *ssa.Function, in ssa.Instruction) {
-			if found {
-				return
-			}
-			if invokes(in, "Process") {
-				found = true
-			} else if ci, ok := in.(ssa.CallInstruction); ok && converts(calleeFn(ci.Common()), seen) {
-				found = true
-			}
-		})
-		return found
-	}
-	isConv := func(in ssa.Instruction) (string, bool) {
-		if invokes(in, "Process") {
-			return "UpdateProcessor.Process", true
-		}
-		if ci, ok := in.(*ssa.Call); ok {
-			if sf := calleeFn(ci.Common()); sf != nil && converts(sf, map[*ssa.Function]bool{}) {
-				return fnName(sf), true
-			}
-		}
-		return "", false
 	}
 
 	f := m.resyncFn
-	lists := map[ssa.Instruction]bool{}
-	for _, l := range m.listCalls(f) {
-		if l.Parent() != f {
-			c.Undecided("C26.convreset/"+fnName(f), p.Pos(l.Pos()), "the List call is inside a closure of %s", fnName(f))
-			return
+	// closures that reset / list / convert but are not simply called cannot be ordered
+	for g := range m.ip.reach(f, nil) {
+		if g.Parent() != nil && relevant(g) {
+			if _, ok := m.ip.helperSites(g); !ok {
+				c.Undecided("C26.convreset/"+fnName(f), p.Pos(g.Pos()), "%s resets, lists or converts inside a closure that is not simply called", fnName(g))
+				return
+			}
 		}
-		lists[l] = true
 	}
-	const stF, stT, stD = 1, 2, 4
+	// The root is walked with the same transfer, recording every top-level conversion site.
 	in := map[*ssa.BasicBlock]uint8{f.Blocks[0]: stF}
-	type viol struct {
-		at   ssa.Instruction
-		what string
-	}
-	var viols []viol
-	seenV := map[ssa.Instruction]bool{}
 	sites := map[string]ssa.Instruction{}
+	bad := map[string]ssa.Instruction{}
 	work := []*ssa.BasicBlock{f.Blocks[0]}
 	for len(work) > 0 {
 		b := work[len(work)-1]
 		work = work[:len(work)-1]
 		s := in[b]
 		for _, i := range b.Instrs {
-			switch what, conv := isConv(i); {
-			case isReset(i):
-				s = stT
-			case lists[i]:
-				if s&stD != 0 {
-					s = s&^stD | stF
+			if s == 0 {
+				break
+			}
+			o, isBad, convs, at := step(i, s)
+			if convs {
+				what := "UpdateProcessor.Process"
+				if ci, ok := i.(*ssa.Call); ok && !invokes(i, "Process") {
+					what = fnName(calleeFn(ci.Common()))
 				}
-			case conv:
 				if _, ok := sites[what]; !ok {
 					sites[what] = i
 				}
-				if s&stF != 0 && !seenV[i] {
-					seenV[i] = true
-					viols = append(viols, viol{i, what})
+				if isBad {
+					if _, ok := bad[what]; !ok {
+						bad[what] = at
+					}
 				}
-				s = stD
 			}
+			s = o
 		}
-		if isPanicBlock(b) {
+		if s == 0 || isPanicBlock(b) {
 			continue
 		}
 		ifi, isIf := b.Instrs[len(b.Instrs)-1].(*ssa.If)
@@ -1064,10 +1273,6 @@ func (m *c26Model) convResetRules() {
 	}
 	if len(sites) == 0 {
 		c.Lost("%s converts no listed items (no call reaching SyncerUpdateProcessor.Process)", fnName(f))
-	}
-	bad := map[string]ssa.Instruction{}
-	for _, v := range viols {
-		bad[v.what] = v.at
 	}
 	for what, site := range sites {
 		key := "C26.convreset/" + fnName(f) + "/" + what
